@@ -371,8 +371,33 @@ def generic_cases(ctx: Ctx) -> list[dict]:
     return cases
 
 
+def boundary_cases(ctx: Ctx) -> list[dict]:
+    """exhaustive boundary lattice at several magnitudes: for every scale 2^k and offset, the box (o, o, 2m, 4m) and all
+    (point, source) pairs from its 3x3 grid of corners / side midpoints / centre plus the 8 surrounding outside positions
+    and the 4 points on the diagonals through the centre (ties of the closest snap) - all exactly representable"""
+    cases = []
+    scales = [F(1, 1024), F(1), F(1024)] + ([F(1, 2**20), F(2**20)] if ctx.thorough else [])
+    offsets = [F(0), F(-(2**20))] + ([F(2**20), F(2**30)] if ctx.thorough else [])
+    for m in scales:
+        for o in offsets:
+            if abs(o) / m > 2**24:
+                continue  # binary64 cannot hold the products of line_intersect exactly beyond that (observed: a box 2^30 times
+                # smaller than its distance from the origin is missed by its own size; float conditioning, not modelled)
+            bx, by, bw, bh = o, o - m, 2 * m, 4 * m
+            xs = [bx - m, bx, bx + bw / 2, bx + bw, bx + bw + m]
+            ys = [by - m, by, by + bh / 2, by + bh, by + bh + m]
+            pts = [(x, y) for x in xs for y in ys]
+            pts += [(bx + bw / 2 + k * bw, by + bh / 2 + k2 * bh) for k in (-1, 1) for k2 in (-1, 1)]  # on the diagonals, outside
+            for p in pts:
+                for s_ in pts:
+                    for style in STYLES:
+                        for port in ((False, True) if style != "oblique" else (False,)):
+                            cases.append({"box": [bx, by, bw, bh], "port": port, "p": list(p), "s": list(s_), "style": style, "gen": "boundary"})
+    return cases
+
+
 def kernel_random(ctx: Ctx, out: Outcome, diagram) -> None:
-    cases = structured_cases(ctx) + generic_cases(ctx)
+    cases = structured_cases(ctx) + generic_cases(ctx) + boundary_cases(ctx)
     reqs = [{"op": "snap", "box": [q(v) for v in c["box"]], "port": c["port"], "p": [q(v) for v in c["p"]],
              "s": [q(v) for v in c["s"]], "style": c["style"]} for c in cases]
     answers = [] if os.environ.get("VERIF_NO_MODEL") == "1" else common.model(reqs, driver="Geom")
@@ -395,6 +420,7 @@ def kernel_random(ctx: Ctx, out: Outcome, diagram) -> None:
                  rep if k % 997 == 0 else None, nontrivial=c["gen"] != "real" or tuple(c["p"]) == tuple(c["s"]))
         out.hit("gen:" + c["gen"])
     out.extra["random_cases"] = {"dyadic": sum(1 for c in cases if c["gen"].startswith("dyadic")), "real": sum(1 for c in cases if c["gen"] == "real"),
+                                  "boundary": sum(1 for c in cases if c["gen"] == "boundary"),
                                   "real-corner": sum(1 for c in cases if c["gen"] == "real-corner")}
 
 
@@ -842,7 +868,7 @@ def case_unjson(c: dict) -> dict:
         if isinstance(v, list):
             return [dec(x) for x in v]
         return v
-    return {k: (dec(v) if k in ("src", "tgt", "slabels", "tlabels", "anchor", "box", "pts", "v") else v) for k, v in c.items()}
+    return {k: (dec(v) if k in ("src", "tgt", "slabels", "tlabels", "anchor", "box", "pts", "v", "c", "r", "vector", "source") else v) for k, v in c.items()}
 
 
 def edge_monitor(rig: EdgeRig, c: dict, res, v) -> list[tuple[str, str]]:
@@ -1189,6 +1215,104 @@ def box_tree(ctx: Ctx, out: Outcome, diagram) -> None:
         out.extra["box_tree_branches"] = {"expected": len(TREE_BRANCHES), "missing": [b for b in TREE_BRANCHES if b not in out.branches]}
 
 
+# ------------------------------------------------------------------ (a4) Circle.vector_snap
+
+
+def impl_circle(diagram, c, v=(0, 0)):
+    circ = diagram.Circle((float(c["c"][0] + v[0]), float(c["c"][1] + v[1])), float(c["r"]))
+    try:
+        r = circ.vector_snap((float(c["vector"][0] + v[0]), float(c["vector"][1] + v[1])), source=(float(c["source"][0] + v[0]), float(c["source"][1] + v[1])))
+    except (AssertionError, ZeroDivisionError, ValueError) as ex:
+        return ("e", "noDirection" if isinstance(ex, (AssertionError, ZeroDivisionError)) else err_kind(ex))
+    return ("r", (r.x, r.y))
+
+
+def circle_monitor(diagram, c, res, v) -> list[tuple[str, str]]:
+    """the statement on `Circle.vector_snap`: a finite point of the circle, on the ray from the centre through the
+    snapped point (from the centre itself: towards the source), and the same point moved by `v` for the moved circle"""
+    cx, cy, R = F(c["c"][0]), F(c["c"][1]), F(c["r"])
+    vx, vy = F(c["vector"][0]), F(c["vector"][1])
+    no_dir = (vx, vy) == (cx, cy) and (F(c["source"][0]), F(c["source"][1])) == (vx, vy)
+    if res[0] == "e":
+        return [] if no_dir and res[1] == "noDirection" else [(f"Circle.vector_snap|raises|{res[1]}", f"raised {res[1]}")]
+    x, y = res[1]
+    if not (math.isfinite(x) and math.isfinite(y)):
+        return [("Circle.vector_snap|non-finite", f"-> {res[1]}")]
+    bad = []
+    scale = max(1.0, float(R), abs(float(cx)), abs(float(cy)))
+    dist = math.hypot(float(F(x) - cx), float(F(y) - cy))
+    if abs(dist - float(R)) > 1e-9 * scale:
+        bad.append(("Circle.vector_snap|off-circle", f"-> {res[1]}: distance {dist} from the centre, radius {R}"))
+    dx, dy = (vx - cx, vy - cy) if (vx, vy) != (cx, cy) else (F(c["source"][0]) - vx, F(c["source"][1]) - vy)
+    dl = math.hypot(float(dx), float(dy))
+    if dl > 0 and R > 0:
+        ex, ey = float(cx) + float(dx) / dl * float(R), float(cy) + float(dy) / dl * float(R)
+        if math.hypot(x - ex, y - ey) > 1e-7 * scale:
+            bad.append(("Circle.vector_snap|wrong-direction", f"-> {res[1]}, but the point of the circle in direction {(str(dx), str(dy))} from the centre is {(ex, ey)}"))
+    moved = impl_circle(diagram, c, v)
+    if moved[0] == "e":
+        bad.append((f"Circle.vector_snap|translated|raises|{moved[1]}", f"moved by {v}: raised"))
+    elif math.hypot(x + v[0] - moved[1][0], y + v[1] - moved[1][1]) > 1e-7 * max(scale, abs(v[0]), abs(v[1])):
+        bad.append(("Circle.vector_snap|translated|not-equivariant", f"-> {res[1]}, but moved by {v} -> {moved[1]}"))
+    return bad
+
+
+def circle_cases(ctx: Ctx) -> list[dict]:
+    rng = ctx.rng
+    cases = []
+    for _ in range(ctx.pick(600, 6000)):
+        c = (dyadic(rng), dyadic(rng)) if rng.random() < 0.8 else (F(0), F(0))
+        R = abs(dyadic(rng, 0, 40)) + F(1, rng.choice(DY))
+        k = rng.choice(["general", "centre", "on-circle", "axis", "origin", "centre-and-source"])
+        vec = {"general": (dyadic(rng), dyadic(rng)), "centre": c, "on-circle": (c[0] + R, c[1]), "axis": (c[0], c[1] + dyadic(rng, 1, 30)),
+               "origin": (F(0), F(0)), "centre-and-source": c}[k]
+        src = vec if k == "centre-and-source" else (dyadic(rng), dyadic(rng))
+        cases.append({"c": c, "r": R, "vector": vec, "source": src, "gen": k})
+    return cases
+
+
+def circle_snap(ctx: Ctx, out: Outcome, diagram) -> None:
+    cases = circle_cases(ctx)
+    impl = [impl_circle(diagram, c) for c in cases]
+    no_model = os.environ.get("VERIF_NO_MODEL") == "1"
+    reqs = [{"op": "circle", "c": [q(x) for x in c["c"]], "r": q(c["r"]), "vector": [q(x) for x in c["vector"]], "source": [q(x) for x in c["source"]],
+             "res": [q(F(x)) for x in (r[1] if r[0] == "r" else (0, 0))]} for c, r in zip(cases, impl)]
+    answers = [] if no_model else common.model(reqs, driver="Geom")
+    vecs = [(1, 0), (0, -1), (-10000, -10000), (7, 10000), (-3333, 4)]
+    for k, (c, res) in enumerate(zip(cases, impl)):
+        v = vecs[k % len(vecs)]
+        rep = {"kind": "circle", **case_json(c), "v": list(v)}
+        for sig, what in circle_monitor(diagram, c, res, v):
+            out.find(sig, f"Circle({tuple(map(str, c['c']))}, {c['r']}).vector_snap({tuple(map(str, c['vector']))}, source={tuple(map(str, c['source']))}) {what}", rep)
+            out.hit("monitor:" + sig)
+        if answers:
+            out.traces_validated += 1
+            ans = answers[k]
+            if "err" in ans:
+                out.disagree("circle", rep, res, ans)
+            else:
+                a = ans["ok"]
+                for t in a.get("br", []):
+                    out.hit(t)
+                if "e" in a or res[0] == "e":
+                    if not ("e" in a and res[0] == "e" and a["e"] == res[1]):
+                        out.disagree("circle", rep, res, a)
+                else:
+                    # the relation of the model on the float result: residuals within the rounding of sqrt and division
+                    fr = lambda z: float(F(z[0], z[1]))  # noqa: E731
+                    R, dl = float(c["r"]), math.sqrt(fr(a["dlen2"]))
+                    scale = max(1.0, R, abs(float(c["c"][0])), abs(float(c["c"][1])))
+                    ok = abs(fr(a["onCircle"])) <= 1e-9 * scale * max(R, 1.0) and abs(fr(a["cross"])) <= 1e-9 * scale * dl and fr(a["dot"]) >= -1e-9 * scale * dl
+                    if a["holds"]:
+                        out.hit("agree:exact")
+                    elif ok:
+                        out.hit("agree:within-1e-9")
+                    else:
+                        out.disagree("circle", rep, list(res[1]), {k2: (fr(v2) if isinstance(v2, list) and len(v2) == 2 else v2) for k2, v2 in a.items()})
+        out.case(("circle", str(rep)), rep if k % 299 == 0 else None, nontrivial=c["gen"] != "general")
+        out.hit("gen:circle:" + c["gen"])
+
+
 # ------------------------------------------------------------------ (b) parser
 
 
@@ -1518,6 +1642,7 @@ def run(ctx: Ctx) -> Outcome:
     kernel_misc(ctx, out, diagram)
     edge_chain(ctx, out, diagram)
     box_tree(ctx, out, diagram)
+    circle_snap(ctx, out, diagram)
     parser_run(ctx, out)
     out.exhaustive = True  # the integer lattice named in RULE is enumerated completely
     import capellambse.diagram._json_enc as je
@@ -1549,6 +1674,10 @@ def replay(ctx: Ctx, case: dict):
             bad = edge_monitor(rig, c, rig.edge(c), v)
         else:
             bad = snapend_monitor(rig, c, rig.snapend(c), v)
+        return "; ".join(f"{sig}: {what}" for sig, what in bad[:3]) or None
+    if kind == "circle":
+        c = {k: ([F(x) for x in v] if isinstance(v, list) else (F(v) if k == "r" else v)) for k, v in case.items() if k not in ("kind", "v", "gen")}
+        bad = circle_monitor(diagram, c, impl_circle(diagram, c), tuple(case["v"]))
         return "; ".join(f"{sig}: {what}" for sig, what in bad[:3]) or None
     if kind == "tree":
         trig = TreeRig(diagram)
